@@ -446,7 +446,9 @@ def run(a):
         "evaluations": len(ded) + b_eval,
         "distinct_nontrivial": discharged + sum(r["nontrivial"] for _, _, r in bounded_results),
         "rule": "deductive obligations are distinct by name (function/kind/exit); bounded cases are distinct inputs of the stated finite domain that satisfied the precondition",
-        "explanation": cfg.get("explanation", ""),
+        "explanation": cfg.get("explanation") or ("Contract-based deductive proofs of the kernel functions listed under functions_under_contract (every obligation "
+                                                 "discharged, counts above) plus bounded stand-ins (never counted as proved); the property as a whole is not proved. "
+                                                 + cfg.get("claim", "")),
     }
     ev = {"property_id": pid, "tier": tier, "seed": seed, "level": cfg["level"], "coverage": cov,
           "assumptions": sorted(assumptions) + cfg.get("trusted", []),
